@@ -39,6 +39,12 @@ CLAIMED = {
         "",
         "DESIGN.md §6 C04",
     ),
+    "C05": (
+        "Lean 4 theorems (un-compression inverts compression; load of a saved document rebuilds the forest) + differential round-trip correspondence under all 108 option combinations",
+        "The model starts at the JSON value: makeEntry/toList/compress/header/saveJ and uncompress/fromList/loadJ mirror the code; theorems: uncompress∘compress = id under ValidMaps, loadJ(saveJ t) is the same forest (data, ids, kinds, clone groups), options are irrelevant. Tie: real save/load through files and streams, every compression method, key/value maps, callback and derived-class mappers; round-trip oracle on the implementation and document equality with the model.",
+        "zip/json/file layers are trusted and exercised for real; ValidMaps hypothesis; mappers are parameters",
+        "DESIGN.md §6 C05",
+    ),
     "C06": (
         "Lean 4 theorems (structural induction) about a hand-written executable model + differential correspondence with the implementation",
         "Theorems in lean/Nutree/Properties/C06.lean: the iterator loops equal the declarative orders (pre, post, level/zigzag = structural levels with per-level direction), visit = pruned order cut at the first stop, all signal spellings normalise correctly; proved for all trees, start nodes, callbacks. The tie to /repo is an exhaustive small-scope + random differential run against the compiled model and the specification.",
@@ -69,11 +75,23 @@ CLAIMED = {
         "the stored _parent links are observed through the API, not modelled as state",
         "DESIGN.md §6 C10",
     ),
+    "C12": (
+        "Lean 4 theorems (layout of the written node list; loader = independent decoder) + layout oracle on real documents + independent encoder for the reading side",
+        "Theorems: entries are in pre-order, entry i names its parent's 1-based index (< i, 0 for tops), a repeated occurrence with equal kind is exactly a reference to the first occurrence, header constants come from the regenerated table, documents without the nutree header are refused. Tie: a layout checker written from the documentation runs on every saved document; documents produced by an independent encoder, the user guide's literal example and malformed headers are loaded by the real code and by the model.",
+        "",
+        "DESIGN.md §6 C12",
+    ),
     "C13": (
         "Lean 4 theorems (operations are validate-then-apply: a refusal returns the old state; WF after failing callbacks) + fault enumeration on the real code",
         "In the model every single-node operation validates before it mutates, so a refusal carries no new state; multi-node operations are proved to refuse up front; WF is preserved when a callback fails. Tie: every invalid argument on every small forest, malformed-heavy histories, raising calc_data_id / sort-key callbacks, and every read-only operation with its callback raising at the k-th call.",
         "known finding KF-C13-remove-keep-clones-partial is mirrored by the model and reported as KNOWN-FINDING",
         "DESIGN.md §6 C13",
+    ),
+    "C14": (
+        "Lean 4 theorems (to_dict mirrors the node; from_dict∘to_dict_list rebuilds the forest) + differential correspondence through json",
+        "toDict/fromDictL mirror the code; theorems: one dict per node, nested alike, data_id present iff custom; from_dict(to_dict_list t) has the same shape, order, data, ids and clone groups. Tie: all small forests + random forests with clones/explicit ids, string data and objects with inverse mappers, directly and through json.dumps/loads; emptied trees.",
+        "",
+        "DESIGN.md §6 C14",
     ),
     "C15": (
         "Lean 4 theorems (list lemmas: loops = filter by kind) + differential correspondence",
